@@ -262,9 +262,19 @@ impl RoutingThread {
         let mut peer_key_list: Vec<SaitoPublicKey> = vec![];
         {
             let peers = self.network.peer_lock.read().await;
-            let peer = peers.find_peer_by_index(peer_index).unwrap();
-            peer_key_list.push(peer.public_key.unwrap());
-            peer_key_list.append(&mut peer.key_list.clone());
+            let peer_key = peers
+                .find_peer_by_index(peer_index)
+                .and_then(|peer| peer.public_key.map(|key| (key, peer.key_list.clone())));
+            if peer_key.is_none() {
+                warn!(
+                    "ghost chain request from peer : {:?} which has not completed the handshake. ignoring",
+                    peer_index
+                );
+                return;
+            }
+            let (public_key, mut key_list) = peer_key.unwrap();
+            peer_key_list.push(public_key);
+            peer_key_list.append(&mut key_list);
         }
 
         let ghost = Self::generate_ghost_chain(
